@@ -790,6 +790,33 @@ def history(g, r, base, grid, rng, steps=9):
     ref = {c: dict(zip(grid, impl['samples'][c])) for c in chans}
     w = build(r)
     n = len(grid)
+    # the value at a time must not depend on how the time array is represented: integer and float32 arrays holding
+    # the same times as the float64 reference
+    ints = [x for x in grid if F(x).denominator == 1]
+    for c in chans:
+        for dtype, times in (('int64', ints), ('int32', ints), ('float32', grid)):
+            if not times or (dtype == 'int32' and rng.random() < 0.5):
+                continue
+            t = np.array([fl(x) for x in times]).astype(dtype)
+            snap = t.copy()
+            how = rng.choice(['get_sampled', 'unsafe_sample'])
+            try:
+                res = getattr(build(r) if rng.random() < 0.5 else w, how)(c, t)
+            except Exception as e:  # noqa
+                g.violation('history: %s with a %s time array raised %s: %s' % (how, dtype, type(e).__name__, str(e)[:120]),
+                            grid=[str(x) for x in grid])
+                return
+            ctx.count('history:dtype-' + dtype)
+            got = [val(x) for x in res]
+            want = [ref[c][x] for x in times]
+            if got != want:
+                g.violation('history: %s(%r) with a %s time array returned %s, with the same times as float64 %s'
+                            % (how, c, dtype, _fmt(got), _fmt(want)), dtype=dtype, grid=[str(x) for x in grid])
+                return
+            if not np.array_equal(t, snap):
+                g.violation('history: %s(%r) modified the caller\'s %s sample time array' % (how, c, dtype),
+                            grid=[str(x) for x in grid])
+                return
     k = max(1, n // 2)
     g1 = sorted(rng.sample(grid, k))
     g2 = sorted(rng.sample(grid, k))
